@@ -33,6 +33,11 @@ func TestMain(m *testing.M) {
 	rec.Assume("keywords and universe-scope names are not modelled: they are what a pristine interpreter completes for the same word (differential), harness-declared names are exact in both directions")
 	rec.Assume("package members = keys of Binds and Types of imports.Packages[path]")
 	rec.Assume("the cursor is a byte offset at a rune boundary, as Interp.CompleteWords slices line[:pos]")
+	// the first fast.New() of a process is slow (export data lookup): pay it here, not
+	// inside rapid's per-iteration timer (rapid stops early when iterations look slow)
+	if !rec.ReplayOnly() {
+		vlib.Try(func() { pristineWords("a"); newHistory() })
+	}
 	os.Exit(vlib.Main(m, rec))
 }
 
@@ -154,23 +159,55 @@ func checkQuery(ir *fast.Interp, q *Query) error {
 	return nil
 }
 
-func runCase(c *Case) error {
+// newHistory starts a new interpreter and model; the packages of pkgPool are loaded
+// into the interpreter's type universe with blank imports (which bind no name), so
+// that the imports of the history itself are cheap.
+func newHistory() {
+	hist.ir, hist.m, hist.decls, hist.uses = newInterp(), newModel(), nil, 0
+	for _, p := range pkgPool {
+		vlib.Try(func() { hist.ir.Eval(`import _ "` + p + `"`) })
+	}
+}
+
+func newInterp() *fast.Interp {
 	ir := fast.New()
 	ir.Comp.Globals.Stdout = discard{}
 	ir.Comp.Globals.Stderr = discard{}
-	for i, st := range c.Steps {
+	return ir
+}
+
+func runSteps(ir *fast.Interp, steps []Step, offset int) error {
+	for i, st := range steps {
 		if st.Decl != "" {
 			if p := vlib.Try(func() { ir.Eval(st.Decl) }); p != nil {
-				return fmt.Errorf("step %d: declaration %q failed: %v", i, st.Decl, p)
+				return fmt.Errorf("step %d: declaration %q failed: %v", offset+i, st.Decl, p)
 			}
 		}
 		if st.Query != nil {
 			if err := checkQuery(ir, st.Query); err != nil {
-				return fmt.Errorf("step %d: %v", i, err)
+				return fmt.Errorf("step %d: %v", offset+i, err)
 			}
 		}
 	}
 	return nil
+}
+
+func runCase(c *Case) error {
+	return runSteps(newInterp(), c.Steps, 0)
+}
+
+// Importing a package makes gomacro look up compiler export data (an external "go list"
+// per package), far more expensive than a case. Consecutive generated cases therefore
+// continue one history in one interpreter (model and interpreter renewed every
+// historyCases cases); the plain form of a case is the whole history since the
+// interpreter was created, with the queries of earlier cases left out.
+const historyCases = 40
+
+var hist struct {
+	ir    *fast.Interp
+	m     *model
+	decls []Step
+	uses  int
 }
 
 type discard struct{}
@@ -739,13 +776,21 @@ func (m *model) resolvesTo(tn string, f field) bool {
 }
 
 func TestCompletion(t *testing.T) {
-	rec.Check(t, rec.Scale(120, 1500), func(t *rapid.T) {
-		m := newModel()
+	want, ran := rec.Scale(200, 400), 0
+	defer func() {
+		if !rec.ReplayOnly() && !t.Failed() && ran < want {
+			t.Fatalf("only %d of %d cases ran (rapid stopped early): inconclusive", ran, want)
+		}
+	}()
+	rec.Check(t, want, func(t *rapid.T) {
+		ran++
+		if hist.ir == nil || hist.uses >= historyCases {
+			newHistory()
+		}
+		hist.uses++
+		m := hist.m
 		c := &Case{}
 		n := rapid.IntRange(5, 40).Draw(t, "nsteps")
-		type ntq struct {
-			key string
-		}
 		var nts []string
 		for i := 0; i < n; i++ {
 			if rapid.IntRange(0, 2).Draw(t, "step-kind") == 0 {
@@ -766,8 +811,22 @@ func TestCompletion(t *testing.T) {
 				rec.Label("expected-has:promoted")
 			}
 		}
-		if err := runCase(c); err != nil {
-			data, _ := json.MarshalIndent(c, "", " ")
+		err := runSteps(hist.ir, c.Steps, len(hist.decls))
+		full := &Case{Steps: append(append([]Step(nil), hist.decls...), c.Steps...)}
+		for _, st := range c.Steps {
+			if st.Decl != "" {
+				hist.decls = append(hist.decls, st)
+			}
+		}
+		if err != nil {
+			hist.ir = nil // start a new history
+			first := err
+			if err = runCase(full); err == nil {
+				rec.Label("failure-in-long-history-only")
+				rec.Note("failure not reproduced from the declarations alone: %v", first)
+				return
+			}
+			data, _ := json.MarshalIndent(full, "", " ")
 			rec.Failf(t, "completion", data, "json", "%v", err)
 		}
 		nq := 0
